@@ -4,7 +4,7 @@
 # REQUIRED_B below (both lists are concatenated into CFG).
 
 PROPS_A = ["EraVerif.Props.C16"]
-PROPS_B = []   # part (b): e.g. "EraVerif.Props.C16b" — pending
+PROPS_B = ["EraVerif.Props.C16b"]   # part (b): the replica's vote caches
 
 REQUIRED_A = [
     "one_per_sender_kind", "len_le_4_senders", "all_pending_signed", "subsequence_of_arrivals",
@@ -13,7 +13,8 @@ REQUIRED_A = [
     "freshest_vote_survives_queue", "recv_never_panics", "send_never_empties",
     "recvs_deliver_pending_in_order",
 ]
-REQUIRED_B = []  # part (b): e.g. "vote_caches_bounded" — pending
+REQUIRED_B = ["cacheInv_reachable", "commit_views_bounded", "timeout_views_bounded", "commit_qcs_views_bounded",
+              "timeout_qcs_views_bounded", "commit_qcs_entries_bounded", "flood_bounded"]
 
 CFG = {
     "gen": [],
@@ -22,9 +23,13 @@ CFG = {
     "technique": "Lean 4 theorems (induction over arbitrary event lists) about an executable model of "
                  "prunable_mpsc::Sender::send / Receiver::recv with the bft filter predicate and selection function "
                  "+ differential run of the real channel from create_input_channel() with really signed messages",
-    "level_text": "PART (a) ONLY — the pending-input queue; PART (b) (the replica's vote caches stay bounded under a flood of "
-                  "future-view votes) IS PENDING and not covered by this check yet. "
-                  "Proof, for every event list (every interleaving of any number of complete Sender::send calls with the "
+    "level_text": "PART (b), the replica's vote caches: on the replica model (Model/Replica.lean, validated against the real "
+                  "StateMachine by the replica correspondence in Flood mode: validly signed commit/timeout votes for arbitrary future "
+                  "views) for every input list of any length and every outcome: commit_views_cache / timeout_views_cache have at most "
+                  "n entries (distinct member indices), commit_qcs_cache / timeout_qcs_cache have at most n live views (each the "
+                  "latest view of some validator), the partial commit certificates number at most n*n with n-bit bitmaps (per view: "
+                  "pairwise different votes, pairwise disjoint non-empty signer sets). "
+                  "PART (a), the pending-input queue: proof, for every event list (every interleaving of any number of complete Sender::send calls with the "
                   "single consumer's wait / pop_front, any messages): at most one pending message per (sender, kind); "
                   "length <= 4 x number of signing keys seen; pending and delivered messages all have valid signatures; "
                   "delivered ++ pending is a subsequence of the arrivals (delivery in arrival order, nothing invented or "
@@ -35,15 +40,15 @@ CFG = {
                   "message of its slot with view >= its own is pending or was delivered afterwards, at every later moment; "
                   "recv's unwrap never panics; n recv calls deliver the first n pending messages in order. "
                   "The model is tied to the code by running the real channel and the model on the same operations.",
-    "level_note": "Partial with respect to the whole property: part (b) is pending. Within part (a) the theorems are full strength "
+    "level_note": "Both parts are full strength for their models. Within part (a) the theorems are full strength "
                   "for the model. The model is hand-written (not translated): its agreement with the ~25 lines of send/recv and "
                   "the two bft functions is established by the differential run only, on the generated operations. Atomicity of "
                   "the two critical sections (tokio watch::Sender::send_modify) and the wake-up of a blocked recv are "
                   "third-party runtime behaviour: assumed, exercised (not proved) by the concurrent op families. The bound is "
                   "4 x signing keys seen, not 4 x committee size: the queue's filter checks the signature only, not committee "
                   "membership (non-member senders are limited upstream by the consensus RPC's in-flight limit, C15).",
-    "harness": "c16",
-    "n": {"quick": 400, "thorough": 20000},
+    "harness": ["c16", "c16b"],
+    "n": {"quick": [400, 600], "thorough": [5000, 20000]},   # ~25 cases/s (BLS signing + verification dominate); the run holds the global lock
     "rule": "n cases (each starts from a fresh create_input_channel()); a case is 5-45 ops send/recv/drain/conc/conc_recv over 6 "
             "signing keys (5 committee + 1 outside) x 4 kinds; families: random mostly-valid traffic with colliding views (40%), "
             "equal views (tie keeps the pending one), ascending flood of future views, descending views, four kinds of one "
